@@ -126,6 +126,14 @@ func init() {
 		h := e.st.heap(slSort)
 		return SV{V: TV{e.x.w.SeqSort(slSort), app("g_derefs_SL", h, e.term(args[0]))}}
 	}
+	specFuncs["pemok"] = func(e *specEnv, args []SV) SV {
+		e.x.w.Decl("(declare-fun g_pemok (" + SSeqI + ") Bool)")
+		return SV{V: TV{SBool, app("g_pemok", e.term(args[0]))}}
+	}
+	specFuncs["pemdecode"] = func(e *specEnv, args []SV) SV {
+		e.x.w.Decl("(declare-fun g_pemdecode (" + SSeqI + ") " + SSeqI + ")")
+		return SV{V: TV{SSeqI, app("g_pemdecode", e.term(args[0]))}, T: types.NewSlice(types.Typ[types.Uint8])}
+	}
 	specFuncs["isbytes"] = func(e *specEnv, args []SV) SV {
 		return SV{V: TV{SBool, app("g_isbytes", e.term(args[0]))}}
 	}
